@@ -24,6 +24,9 @@ def run(check):
     check.guarded("FANOUT", X.rule_fanout)
     check.guarded("OPTCHAIN-LOWERING", X.rule_optchain_lowering)
     check.guarded("OPTCHAIN-LINK-FLAG", X.rule_optchain_link_flag)
+    # a node kind outside the instrumentation vocabulary (a `this` where the input said `super`, a new
+    # operator) is code the input did not have: nothing says it behaves like what it replaces
+    check.guarded("INVENTORY", X.rule_inventory)
     check.guarded("CALL-EMISSION", X.rule_call_emission)
     from . import c04
 
